@@ -25,7 +25,7 @@ def _tags_tuple(ctx):
             parts = t.values if isinstance(t, ast.BoolOp) and isinstance(t.op, ast.And) else [t]
             for p in parts:
                 if isinstance(p, ast.Compare) and isinstance(p.left, ast.Name) and p.left.id == 'tag' \
-                        and any(isinstance(s, ast.Expr) and unparse(s.value) == 'self._fill()' for s in n.body):
+                        and any(isinstance(s, ast.Expr) and unparse(s.value) == 'self._fill()' for b_ in n.body for s in ast.walk(b_)):
                     if isinstance(p.ops[0], ast.In) and isinstance(p.comparators[0], ast.Tuple):
                         fill = [const_str(e) for e in p.comparators[0].elts]
                     elif isinstance(p.ops[0], ast.Eq) and const_str(p.comparators[0]):
